@@ -11,7 +11,7 @@ def shard(arg):
     d = os.path.join(work, "s%d" % sh)
     os.makedirs(d, exist_ok=True)
     p = subprocess.run([os.path.join(vp.BIN, "vpmon"), "depgraph", str(maxn), str(sh), str(nsh), d, str(nrandom), str(seed)],
-                       stdout=subprocess.PIPE, stderr=subprocess.PIPE, text=True)
+                       stdout=subprocess.PIPE, stderr=subprocess.PIPE, text=True, env=dict(os.environ, **vp.hostile_env()))
     vp.rmtree(d)
     if p.returncode != 0:
         return {"error": p.stderr[-1500:]}
